@@ -76,6 +76,18 @@ Theorem c01_one_mark_per_call_let_in : forall w now k o,
 Proof. exact one_mark_per_end. Qed.
 Print Assumptions c01_one_mark_per_call_let_in.
 
+(* nested breakers: the fallback runs iff THIS breaker rejected the call (c01_rejected_never_runs); when the call was
+   let in and the protected function itself returns ErrServiceUnavailable (an inner breaker is open), the function's
+   error goes back to the caller, no fallback runs, and the outcome is recorded per the predicate like any other error *)
+Theorem c01_inner_unavailable_is_an_outcome : forall w now k,
+  snd (do_end w now k InnerUnavailable) = RRan InnerUnavailable /\
+  fst (do_end w now k InnerUnavailable) = add w now (if acceptable k InnerUnavailable then 1 else 0) /\
+  (uses_default k = true -> acceptable k InnerUnavailable = false) /\
+  acceptable KDoWithAcceptable InnerUnavailable = false /\
+  (forall p, acceptable (KDoWithFallbackAcceptableP p) InnerUnavailable = pred_ok p UnacceptableErr).
+Proof. exact inner_unavailable. Qed.
+Print Assumptions c01_inner_unavailable_is_an_outcome.
+
 (* registry: the same name yields the same breaker, events under one name leave the others alone *)
 Theorem c01_registry_independent :
   (forall r name now now', let (r1, w1) := get r name now in get r1 name now' = (r1, w1)) /\
